@@ -224,7 +224,7 @@ def project(v) -> dict:
         except Exception:  # ragged
             pass
     if v is None:
-        return {"kind": "none", "poison": False, "digest": "none", "carrier": "none"}
+        return {"kind": "none", "poison": False, "digest": digest(v), "carrier": "none"}
     if isinstance(v, str):
         return {"kind": "text", "text": v, "cp": [ord(c) for c in v], "poison": False,
                 "digest": digest(v), "carrier": "str"}
